@@ -40,6 +40,7 @@ CONSTANTS
   ReaderRestores = %s
   AllowDeleteFresh = TRUE
   ReaderCrash = FALSE
+  ROReaders = {}
 CHECK_DEADLOCK FALSE
 %s
 """ % (mode, "TRUE" if rdel else "FALSE", "TRUE" if rres else "FALSE",
@@ -89,7 +90,7 @@ def run(c):
         mult.append((tname, m["count"], m.get("example", [])))
     multd = {n: (cnt, ex) for n, cnt, ex in mult}
     cfg = bc.trace_cfg(mode, rdel, True, reader_restores=rres)
-    rej, notes = bc.validate_with_notes(c, traces, cfg, chunk=300, parallel=4)
+    rej, notes = bc.validate_with_notes(c, traces, cfg, chunk=300, parallel=4, diagnose=0)
     seen = {}
 
     def opcow(tname):
@@ -137,6 +138,7 @@ def run(c):
     c.cov.update(dict(
         exhaustive=True, tree_variant=dict(corrupt_mode=mode, reader_deletes=rdel, reader_restores=rres),
         real_cases_run=total_cases, driver_reported_cases=stats.get("count"), skipped_crc_valid=stats.get("skipped_crc_valid"),
+        abandoned_slow=stats.get("abandoned_slow"), traces_rejected=len(rej),
         distinct_abstract_traces=len(traces), evaluations=total_cases,
         distinct_nontrivial=len(classes),
         rule="real cases = (operation, backup state, corruption) triples run on the real registry; distinct_nontrivial counts distinct (operation, backup state, corruption kind, region of the block hit: slot/other slot/free/crc) classes; traces with identical abstract events are validated once",
